@@ -124,7 +124,8 @@ def run():
         "time is virtual: one tick = 5 min; the harness ages the stored instants (lastFailure, lockedUntil) instead of sleeping; "
         "the real 'now' is therefore always a few microseconds past a tick boundary (exact equality now == lockedUntil is not reachable)",
         "attempts are sequential (the statement quantifies over sequences); concurrent attempts on one name are not explored",
-        "the background scan is driven explicitly (pruneLoginAttempts) - its 5-minute real-time sleep never elapses during a run",
+        "the background scan is driven explicitly (pruneLoginAttempts); its goroutine is parked by consuming its sync.Once in the harness "
+        "(at the OAuth door, where that is not possible, a replay longer than 240 s is no verdict)",
         "entry points exercised: HTTP Basic and credentials-in-body through Router.ServeHTTP/Session.Authenticate, names in lower and upper case; "
         "'password verification ran' = the credential store was read for that user during the request",
         "OAuth2 login form (POST /oauth2/authorize): only time-free histories, and only reply + 'verification ran' are compared there "
@@ -187,6 +188,9 @@ def run():
         dnodes, dpaths = cover_paths(rd.records)
         fbuild2.result()
         resd = run_bin(binary2, sd, dpaths, "doors", vf.SEED, test=TEST2, pkg=PKG2)
+        if (resd.get("extra") or {}).get("wall_s", 0) > 240:
+            # this package cannot park the router's background scan (first pass after 5 real minutes)
+            raise vf.NoVerdict("doors replay took %.0f s - too slow to rule out interference of the background scan" % resd["extra"]["wall_s"])
         resd = {"behaviours": resd["behaviours"], "steps": resd["steps"], "transitions": resd["transitions"],
                 "mismatches": resd.get("mismatches") or [], "act_counts": resd.get("act_counts") or {},
                 "variants": (resd.get("extra") or {}).get("variants") or {}, "replies": (resd.get("extra") or {}).get("replies") or {}}
